@@ -27,10 +27,10 @@ struct Variant {
   std::function<CircularEngine(double, double, bool)> circle;
 };
 
-static void report_sh(Ctx& c, const std::string& cls, const std::string& what, const Judge& j, const ref::HarmResult& o, Q q,
+static void report_sh(Ctx& c, const std::string& cls, const std::string& what, const Judge& j, const ref::HarmResult& o, const AxisAllow& al, Q q,
                       const J& wit, double Kv, double Kg, bool denormp, const std::string& coefst) {
   if (j.skip) { c.event("sh: REF magnitude outside double range (not judged)"); return; }
-  bool under = scaled_underflow(o, q);
+  bool under = scaled_underflow(o, q, &al);
   c.obs("sh " + what + " value err [eps*sum(n+1)|term|]" + (under ? " (internal scaling subnormal)" : denormp ? " (denormal p)" : ""), j.ev, wit);
   c.obs("sh " + what + " gradient err [eps*sum(n+2)|grad term|]" + (under ? " (internal scaling subnormal)" : denormp ? " (denormal p)" : ""), j.eg, wit);
   if (!under && !denormp) {
@@ -165,10 +165,10 @@ static void sec_sh(Ctx& c, uint64_t idx) {
       if (c.only)
         std::fprintf(stderr, "%s: lib V=%.17g g=(%.17g,%.17g,%.17g)\n   ref V=%s g=(%s,%s,%s) sabs_n=%s gabs_n=%s ev=%g eg=%g\n", cls.c_str(), Vg, gx, gy, gz,
                      qs(o.V).c_str(), qs(o.gx).c_str(), qs(o.gy).c_str(), qs(o.gz).c_str(), qs(o.sabs_n).c_str(), qs(o.gabs_n).c_str(), j.ev, j.eg);
-      report_sh(c, cls, "direct", j, o, q, wit, K_V, K_G, denormp, coefstyle_name[style]);
+      report_sh(c, cls, "direct", j, o, al, q, wit, K_V, K_G, denormp, coefstyle_name[style]);
 
       // ---- gradient == derivative of the library's own value (central differences): first point, one variant
-      if (ip == 0 && iv == (size_t)(idx % V.size()) && !j.skip && !denormp && !scaled_underflow(o, q) && dq(o.gabs_n) > 0 && R.g.u >= (Q)1e-3) {
+      if (ip == 0 && iv == (size_t)(idx % V.size()) && !j.skip && !denormp && !scaled_underflow(o, q, &al) && dq(o.gabs_n) > 0 && R.g.u >= (Q)1e-3) {
         // horizontal derivatives of order-m terms carry a factor m/(r u): shrink the step towards the axis, and
         // scale the truncation bound by 1/u^2; closer to the axis than sin(theta) = 1e-3 a finite step cannot resolve u^m, REF is the only judge there
         double rr = dq(R.g.r), uu = std::max(dq(R.g.u), 1e-300), hh = rr * 6e-6 * std::min(1.0, std::max(uu, 1e-2)), amp = 1 / std::min(1.0, uu * uu);
@@ -217,10 +217,10 @@ static void sec_sh(Ctx& c, uint64_t idx) {
           c.count(std::string("circle/") + v.name + "/" + nname + "/" + nbucket(N) + (gradp ? "/grad" : "/value-only"), vh::hmix(h, lon), trivial);
           if (il == 0 && pp > 0 && !denormp) {          // the circle against REF itself at the original point
             Judge jc = judge(o, al, Vc, gradp ? cgx : 0, gradp ? cgy : 0, gradp ? cgz : 0, gradp);
-            report_sh(c, cls, "circle", jc, o, q, J(wit).f("lon", lon), K_V + 4, K_G + 4, denormp, coefstyle_name[style]);
+            report_sh(c, cls, "circle", jc, o, al, q, J(wit).f("lon", lon), K_V + 4, K_G + 4, denormp, coefstyle_name[style]);
           }
         }
-        bool under = scaled_underflow(o, q);
+        bool under = scaled_underflow(o, q, &al);
         c.obs(std::string("circle vs direct value [eps*sum(n+1)|term|]") + (under ? " (internal scaling subnormal)" : denormp ? " (denormal p)" : ""), worstv, wit);
         c.obs(std::string("circle vs direct gradient [eps*sum(n+2)|grad term|]") + (under ? " (internal scaling subnormal)" : denormp ? " (denormal p)" : ""), worstg, wit);
         if (!(worstv <= K_C)) c.viol(under ? KEY_UNDER : denormp ? KEY_DENORMP : std::string("law:C19/circle/value-differs-from-direct"), cls, J(wit).f("err_over_eps_scale", worstv).b("gradp", gradp));
